@@ -186,14 +186,23 @@ func (w *world) flatten(prefix string, t types.Type, out *[]field) {
 // expression translation
 
 type env struct {
-	info   *types.Info
-	paths  map[types.Object]string // identifiers denoting (parts of) the PDU value → field path prefix ("" = the PDU itself)
-	locals map[types.Object]string // single-assignment integer locals → Lean Expr
-	bytesL map[types.Object]string // locals holding a byte-string derived from a field: "hexdec:<path>"
-	writer types.Object
-	reader types.Object
-	loopIx types.Object              // index variable of the enclosing counted loop
-	alias  map[types.Object]ast.Expr // decode helpers: `raw := b.ReadX(n)` used once in the returned expression
+	info     *types.Info
+	paths    map[types.Object]string // identifiers denoting (parts of) the PDU value → field path prefix ("" = the PDU itself)
+	locals   map[types.Object]string // single-assignment integer locals → Lean Expr
+	bytesL   map[types.Object]string // locals holding a byte-string derived from a field: "hexdec:<path>"
+	writer   types.Object
+	reader   types.Object
+	loopIx   types.Object              // index variable of the enclosing counted loop
+	alias    map[types.Object]ast.Expr // decode helpers: `raw := b.ReadX(n)` used once in the returned expression
+	inHelper bool                      // translating the body of an inlined library function
+	parent   *env                      // tables: the environment of the caller whose values the parameters stand for
+}
+
+func (e *env) root() *env {
+	for e.parent != nil {
+		e = e.parent
+	}
+	return e
 }
 
 func (e *env) clone() *env {
@@ -301,6 +310,10 @@ func (w *world) intExpr(e *env, x ast.Expr) (string, bool) {
 	case *ast.Ident:
 		if s, ok := e.locals[e.info.ObjectOf(v)]; ok {
 			return s, true
+		}
+		// a value parameter / result variable of an inlined helper that stands for a field
+		if p, ok := e.paths[e.info.ObjectOf(v)]; ok && p != "" && uintBytes(e.info.TypeOf(x)) > 0 {
+			return fmt.Sprintf("(.fld %s)", q(p)), true
 		}
 	case *ast.SelectorExpr, *ast.IndexExpr:
 		if p, ok := w.fieldPath(e, x); ok {
@@ -448,7 +461,7 @@ func (w *world) bindCall(e *env, c *ast.CallExpr) (*ast.FuncDecl, *env, bool) {
 		return nil, nil, false
 	}
 	finfo := w.infoOf[fd]
-	ne := &env{info: finfo, paths: map[types.Object]string{}, locals: map[types.Object]string{}, bytesL: map[types.Object]string{}}
+	ne := &env{info: finfo, paths: map[types.Object]string{}, locals: map[types.Object]string{}, bytesL: map[types.Object]string{}, inHelper: true}
 	idx := 0
 	for _, pf := range fd.Type.Params.List {
 		for _, nm := range pf.Names {
@@ -557,7 +570,29 @@ func (w *world) strArg(e *env, x ast.Expr) (kind, path string, ok bool) {
 }
 
 func (w *world) encStmts(e *env, stmts []ast.Stmt, out *encOut) {
-	for _, s := range stmts {
+	for i, s := range stmts {
+		// inside an inlined helper that returns nothing: `if len(x) == 0 { return }` directly in front of the one
+		// statement that writes x's serialisation (writing no octets is what the writer does for an empty value)
+		if ifs, ok := s.(*ast.IfStmt); ok && e.inHelper && i+2 == len(stmts) && ifs.Init == nil && ifs.Else == nil && len(ifs.Body.List) == 1 {
+			if r, ok := ifs.Body.List[0].(*ast.ReturnStmt); ok && len(r.Results) == 0 {
+				if b, ok := unparen(ifs.Cond).(*ast.BinaryExpr); ok && b.Op == token.EQL {
+					if n, ok := constInt(e, b.Y); ok && n == 0 {
+						if c, ok := unparen(b.X).(*ast.CallExpr); ok && len(c.Args) == 1 {
+							if id, ok := c.Fun.(*ast.Ident); ok && id.Name == "len" {
+								if lp, ok := w.fieldPath(e, c.Args[0]); ok {
+									var tmp encOut
+									w.encStmt(e, stmts[i+1], &tmp)
+									if len(tmp.ops) == 1 && (tmp.ops[0] == fmt.Sprintf(".tlvs %s", q(lp)) || tmp.ops[0] == fmt.Sprintf(".raw %s", q(lp))) {
+										out.ops = append(out.ops, tmp.ops[0])
+										return
+									}
+								}
+							}
+						}
+					}
+				}
+			}
+		}
 		w.encStmt(e, s, out)
 	}
 }
@@ -901,6 +936,25 @@ func (w *world) encStmt(e *env, s ast.Stmt, out *encOut) {
 				}
 			}
 		}
+		// for i := range p.F { b.WriteFixedLenString(p.F[i], n) }
+		if id, ok := st.Key.(*ast.Ident); ok && id.Name != "_" && st.Value == nil && st.Tok == token.DEFINE && len(st.Body.List) == 1 {
+			if lp, ok := w.fieldPath(e, st.X); ok {
+				if es, ok := st.Body.List[0].(*ast.ExprStmt); ok {
+					if c, ok := es.X.(*ast.CallExpr); ok {
+						ne := e.clone()
+						ne.loopIx = e.info.ObjectOf(id)
+						var tmp encOut
+						if w.writerCall(ne, c, &tmp, nil, "") && len(tmp.ops) == 1 && strings.HasPrefix(tmp.ops[0], "ELEM ") {
+							f := strings.Fields(tmp.ops[0])
+							if f[1] == lp {
+								out.ops = append(out.ops, fmt.Sprintf(".repRange %s %s", q(f[1]), f[2]))
+								return
+							}
+						}
+					}
+				}
+			}
+		}
 		// for _, x := range p.F { b.WriteFixedLenString(x, n) }
 		if id, ok := st.Key.(*ast.Ident); ok && id.Name == "_" && st.Value != nil && len(st.Body.List) == 1 {
 			if lp, ok := w.fieldPath(e, st.X); ok {
@@ -1159,11 +1213,121 @@ func (w *world) isReaderOrParse(e *env, c *ast.CallExpr) bool {
 		w.isReaderErrNotNil(e, c.Args[0]) && w.isReaderCall(e, c.Args[1], "Error") && w.isParseErr(e, c.Args[2])
 }
 
+// resultCall inlines `L1, …, Ln = helper(<reader>, args…)`: a library function that reads from the reader into
+// result variables and returns them.  Each returned variable is bound to the field it is assigned to in the
+// caller, so the helper's statements translate as if they assigned the fields directly (they cannot observe the
+// PDU otherwise: only what is passed in is bound).
+func (w *world) resultCall(e *env, lhs []ast.Expr, c *ast.CallExpr, out *decOut) bool {
+	var paths []string
+	var ltypes []types.Type
+	for _, l := range lhs {
+		p, ok := w.fieldPath(e, l)
+		if !ok {
+			return false
+		}
+		paths = append(paths, p)
+		ltypes = append(ltypes, e.info.TypeOf(l))
+	}
+	return w.resultCallP(e, paths, ltypes, c, out)
+}
+
+func (w *world) resultCallP(e *env, paths []string, ltypes []types.Type, c *ast.CallExpr, out *decOut) bool {
+	if e.reader == nil {
+		return false
+	}
+	fd, ne, ok := w.bindCall(e, c)
+	if !ok || ne.reader == nil || len(fd.Body.List) == 0 || fd.Type.Results == nil {
+		return false
+	}
+	var named []types.Object
+	nres := 0
+	for _, rf := range fd.Type.Results.List {
+		if len(rf.Names) == 0 {
+			nres++
+		}
+		for _, nm := range rf.Names {
+			nres++
+			named = append(named, ne.info.ObjectOf(nm))
+		}
+	}
+	ret, ok := fd.Body.List[len(fd.Body.List)-1].(*ast.ReturnStmt)
+	if !ok || nres != len(paths) {
+		return false
+	}
+	var objs []types.Object
+	switch {
+	case len(ret.Results) == 0 && len(named) == nres:
+		objs = named
+	case len(ret.Results) == nres:
+		for _, r := range ret.Results {
+			id, ok := unparen(r).(*ast.Ident)
+			if !ok {
+				return false
+			}
+			if _, isVar := ne.info.ObjectOf(id).(*types.Var); !isVar {
+				return false
+			}
+			objs = append(objs, ne.info.ObjectOf(id))
+		}
+	default:
+		return false
+	}
+	seen := map[types.Object]bool{}
+	for i, o := range objs {
+		if o == nil || seen[o] {
+			return false
+		}
+		seen[o] = true
+		if p, bound := ne.paths[o]; bound && p != paths[i] {
+			return false // a parameter that stands for another field is returned into this one
+		}
+		if _, isInt := ne.locals[o]; isInt {
+			return false
+		}
+		if !types.Identical(o.Type(), ltypes[i]) {
+			return false
+		}
+		ne.paths[o] = paths[i]
+	}
+	var tmp decOut
+	w.decStmts(ne, fd.Body.List[:len(fd.Body.List)-1], &tmp)
+	if tmp.ret != "" || tmp.readerErrReturned || len(tmp.ops) == 0 {
+		return false
+	}
+	for _, o := range tmp.ops {
+		if strings.HasPrefix(o, ".unsupported") || strings.HasPrefix(o, ".guard") || strings.HasPrefix(o, ".stopIfAbsent") {
+			return false
+		}
+	}
+	for _, p := range paths {
+		for o, x := range e.locals {
+			if strings.Contains(x, "(.fld "+q(p)+")") || strings.Contains(x, "(.lenOf "+q(p)+")") {
+				delete(e.locals, o)
+			}
+		}
+	}
+	out.ops = append(out.ops, tmp.ops...)
+	return true
+}
+
+// boundDefine: `x := …` where x is a result variable already bound to a field (see resultCall)
+func (w *world) boundDefine(e *env, st *ast.AssignStmt) bool {
+	if st.Tok != token.DEFINE || len(st.Lhs) != 1 {
+		return false
+	}
+	id, ok := st.Lhs[0].(*ast.Ident)
+	if !ok {
+		return false
+	}
+	_, bound := e.paths[e.info.ObjectOf(id)]
+	return bound
+}
+
 func (w *world) decStmts(e *env, stmts []ast.Stmt, out *decOut) {
 	for i := 0; i < len(stmts); i++ {
 		s := stmts[i]
 		// p.F = make([]string, cnt) followed by the counted index loop
-		if as, ok := s.(*ast.AssignStmt); ok && as.Tok == token.ASSIGN && len(as.Lhs) == 1 && len(as.Rhs) == 1 && i+1 < len(stmts) {
+		if as, ok := s.(*ast.AssignStmt); ok && (as.Tok == token.ASSIGN || w.boundDefine(e, as)) && len(as.Lhs) == 1 && len(as.Rhs) == 1 && i+1 < len(stmts) {
 			if c, ok := as.Rhs[0].(*ast.CallExpr); ok {
 				if id, ok := c.Fun.(*ast.Ident); ok && id.Name == "make" && len(c.Args) == 2 {
 					if lp, ok := w.fieldPath(e, as.Lhs[0]); ok {
@@ -1308,7 +1472,7 @@ func (w *world) decStmt(e *env, s ast.Stmt, out *decOut) {
 			}
 		}
 	case *ast.AssignStmt:
-		if len(st.Lhs) == 1 && len(st.Rhs) == 1 && st.Tok == token.DEFINE {
+		if len(st.Lhs) == 1 && len(st.Rhs) == 1 && st.Tok == token.DEFINE && !w.boundDefine(e, st) {
 			if c, ok := st.Rhs[0].(*ast.CallExpr); ok {
 				if fn, _ := w.callee(e, c); fullName(fn) == modPath+"/packet.NewPacketReader" {
 					e.reader = e.info.ObjectOf(st.Lhs[0].(*ast.Ident))
@@ -1322,7 +1486,7 @@ func (w *world) decStmt(e *env, s ast.Stmt, out *decOut) {
 			}
 		}
 		// n := int(p.Count): an integer local; it stays valid until the field it was computed from is assigned again
-		if len(st.Lhs) == 1 && len(st.Rhs) == 1 && st.Tok == token.DEFINE && e.reader != nil {
+		if len(st.Lhs) == 1 && len(st.Rhs) == 1 && st.Tok == token.DEFINE && e.reader != nil && !w.boundDefine(e, st) {
 			if id, ok := st.Lhs[0].(*ast.Ident); ok {
 				if x, ok := w.intExpr(e, st.Rhs[0]); ok {
 					e.locals[e.info.ObjectOf(id)] = x
@@ -1330,7 +1494,7 @@ func (w *world) decStmt(e *env, s ast.Stmt, out *decOut) {
 				}
 			}
 		}
-		if len(st.Lhs) == 1 && len(st.Rhs) == 1 && st.Tok == token.ASSIGN {
+		if len(st.Lhs) == 1 && len(st.Rhs) == 1 && (st.Tok == token.ASSIGN || w.boundDefine(e, st)) {
 			if p, ok := w.fieldPath(e, st.Lhs[0]); ok {
 				for o, x := range e.locals {
 					if strings.Contains(x, "(.fld "+q(p)+")") || strings.Contains(x, "(.lenOf "+q(p)+")") {
@@ -1379,6 +1543,16 @@ func (w *world) decStmt(e *env, s ast.Stmt, out *decOut) {
 					out.ops = append(out.ops, op)
 					return
 				}
+				// p.F = readList(b, p.Count): a helper that fills and returns what is assigned here
+				if c, ok := st.Rhs[0].(*ast.CallExpr); ok && st.Tok == token.ASSIGN && w.resultCall(e, st.Lhs, c, out) {
+					return
+				}
+			}
+		}
+		// p.A, p.B = readGroup(b)
+		if len(st.Lhs) >= 2 && len(st.Rhs) == 1 && st.Tok == token.ASSIGN {
+			if c, ok := st.Rhs[0].(*ast.CallExpr); ok && w.resultCall(e, st.Lhs, c, out) {
+				return
 			}
 		}
 		// s.Options, parseErr = smgp.ParseOptions(b.Bytes())
@@ -1475,6 +1649,17 @@ func (w *world) decStmt(e *env, s ast.Stmt, out *decOut) {
 					out.ret = ".readerErr"
 					return
 				}
+				// return finish(b): a helper that only hands back the reader's verdict (and may release the reader)
+				if e.reader != nil {
+					if fd, ne, ok := w.bindCall(e, c); ok && ne.reader != nil && len(c.Args) == 1 {
+						var tmp decOut
+						w.decStmts(ne, fd.Body.List, &tmp)
+						if len(tmp.ops) == 0 && tmp.ret != "" && !tmp.readerErrReturned {
+							out.ret = tmp.ret
+							return
+						}
+					}
+				}
 				// return decodeHeaderOnly(data, &p.Header): a helper that does the rest of the decoding with its own reader
 				if e.reader == nil {
 					if fd, ne, ok := w.bindCall(e, c); ok {
@@ -1506,7 +1691,79 @@ func (w *world) inlineReadHeader(fn *types.Func, prefix string) ([]string, bool)
 	e := &env{info: info, paths: map[types.Object]string{}, locals: map[types.Object]string{}, bytesL: map[types.Object]string{}}
 	e.reader = info.ObjectOf(fd.Type.Params.List[0].Names[0])
 	var out decOut
-	for _, s := range fd.Body.List {
+	// return Header{A: a, B: T(b), C: readPart(r)}: locals that end up in a field stand for it, fields given by a
+	// call are read when the literal is evaluated (after every statement, in the order written)
+	type late struct {
+		path string
+		t    types.Type
+		x    ast.Expr
+	}
+	var lates []late
+	litReturn := false
+	if n := len(fd.Body.List); n >= 1 {
+		if ret, ok := fd.Body.List[n-1].(*ast.ReturnStmt); ok && len(ret.Results) == 1 {
+			if cl, ok := unparen(ret.Results[0]).(*ast.CompositeLit); ok {
+				st, isStruct := info.TypeOf(cl).Underlying().(*types.Struct)
+				if !isStruct {
+					return nil, false
+				}
+				ftype := map[string]types.Type{}
+				for i := 0; i < st.NumFields(); i++ {
+					ftype[st.Field(i).Name()] = st.Field(i).Type()
+				}
+				seen := map[types.Object]bool{}
+				for _, el := range cl.Elts {
+					kv, ok := el.(*ast.KeyValueExpr)
+					if !ok {
+						return nil, false
+					}
+					name := kv.Key.(*ast.Ident).Name
+					path := name
+					if prefix != "" {
+						path = prefix + "." + name
+					}
+					v := unparen(kv.Value)
+					inner := v
+					if c, ok := v.(*ast.CallExpr); ok && len(c.Args) == 1 {
+						if tv, ok := info.Types[c.Fun]; ok && tv.IsType() {
+							inner = unparen(c.Args[0])
+						}
+					}
+					if id, ok := inner.(*ast.Ident); ok {
+						o, isVar := info.ObjectOf(id).(*types.Var)
+						if !isVar || seen[o] || uintBytes(o.Type()) == 0 || uintBytes(o.Type()) != uintBytes(ftype[name]) {
+							if !isVar || seen[o] || !types.Identical(o.Type(), ftype[name]) {
+								return nil, false
+							}
+						}
+						seen[o] = true
+						e.paths[o] = path
+						continue
+					}
+					if _, ok := v.(*ast.CallExpr); ok {
+						lates = append(lates, late{path, ftype[name], v})
+						continue
+					}
+					return nil, false
+				}
+				litReturn = true
+			}
+		}
+	}
+	for si, s := range fd.Body.List {
+		if litReturn && si == len(fd.Body.List)-1 {
+			for _, l := range lates {
+				if op, ok := w.assignRead(e, l.path, l.t, l.x); ok {
+					out.ops = append(out.ops, op)
+					continue
+				}
+				if c, ok := l.x.(*ast.CallExpr); ok && w.resultCallP(e, []string{l.path}, []types.Type{l.t}, c, &out) {
+					continue
+				}
+				return nil, false
+			}
+			continue
+		}
 		switch st := s.(type) {
 		case *ast.DeclStmt: // var h Header
 			if gd, ok := st.Decl.(*ast.GenDecl); ok && gd.Tok == token.VAR && len(gd.Specs) == 1 {
